@@ -9,13 +9,14 @@ for n in names:
     d = os.path.join(V, "seeded", n)
     meta = json.load(open(os.path.join(d, "meta.json")))
     pid = meta["property"]
-    p = subprocess.run([os.path.join(V, "selftest", "run_patch.py"), pid, os.path.join(d, "patch.diff")], capture_output=True, text=True)
-    viol = [l for l in p.stdout.splitlines() if l.startswith("VIOLATION")]
-    asserts = sorted({m.group(1) for l in viol for m in [re.search(r"assert=(\S+)", l)] if m})
-    meta.setdefault("our_checks", {})[pid] = {"exit": p.returncode, "violations": len(viol), "asserts": asserts[:8], "first": [v[:300] for v in viol[:2]]}
+    for chk in [pid] + meta.get("also_checks", []):
+        p = subprocess.run([os.path.join(V, "selftest", "run_patch.py"), chk, os.path.join(d, "patch.diff")], capture_output=True, text=True)
+        viol = [l for l in p.stdout.splitlines() if l.startswith("VIOLATION")]
+        asserts = sorted({m.group(1) for l in viol for m in [re.search(r"assert=(\S+)", l)] if m})
+        meta.setdefault("our_checks", {})[chk] = {"exit": p.returncode, "violations": len(viol), "asserts": asserts[:8], "first": [v[:300] for v in viol[:2]]}
+        print("%s: check %s -> exit %d (%d VIOLATION lines) %s" % (n, chk, p.returncode, len(viol), asserts[:4]))
     meta["repo_head_evaluated"] = subprocess.run(["git", "-C", "/repo", "rev-parse", "--short", "HEAD"], capture_output=True, text=True).stdout.strip()
     json.dump(meta, open(os.path.join(d, "meta.json"), "w"), indent=1)
-    print("%s: check %s -> exit %d (%d VIOLATION lines) %s" % (n, pid, p.returncode, len(viol), asserts[:4]))
 rows = []
 for n in sorted(os.listdir(os.path.join(V, "seeded"))):
     mp = os.path.join(V, "seeded", n, "meta.json")
